@@ -4,7 +4,7 @@ use std::mem;
 #[cfg(not(target_arch = "wasm32"))]
 use std::time::Instant;
 
-use console::{measure_text_width, Style};
+use console::{measure_text_width, AnsiCodeIterator, Style};
 #[cfg(feature = "unicode-segmentation")]
 use unicode_segmentation::UnicodeSegmentation;
 #[cfg(target_arch = "wasm32")]
@@ -731,16 +731,14 @@ impl fmt::Display for PaddedStringDisplay<'_> {
         if excess > 0 && !self.truncate {
             return f.write_str(self.str);
         } else if excess > 0 {
-            let (start, end) = match self.align {
-                Alignment::Left => (0, self.str.len() - excess),
-                Alignment::Right => (excess, self.str.len()),
-                Alignment::Center => (
-                    excess / 2,
-                    self.str.len() - excess.saturating_sub(excess / 2),
-                ),
+            // The columns to keep; `excess` counts terminal columns, not bytes.
+            let start = match self.align {
+                Alignment::Left => 0,
+                Alignment::Right => excess,
+                Alignment::Center => excess / 2,
             };
 
-            return f.write_str(self.str.get(start..end).unwrap_or(self.str));
+            return write_columns(f, self.str, start, start + self.width);
         }
 
         let diff = self.width.saturating_sub(cols);
@@ -759,6 +757,46 @@ impl fmt::Display for PaddedStringDisplay<'_> {
         }
         Ok(())
     }
+}
+
+/// Writes the terminal columns `start..end` of `s`
+///
+/// ANSI escape sequences occupy no columns and are always written in full, so that a style
+/// opened in the text is also closed again. A wide character that lies only partly inside the
+/// range is replaced by a space, which keeps the number of columns written exact.
+fn write_columns(f: &mut fmt::Formatter<'_>, s: &str, start: usize, end: usize) -> fmt::Result {
+    let mut col = 0;
+    let mut kept = start == 0;
+    let mut utf8 = [0; 4];
+    for (part, is_ansi) in AnsiCodeIterator::new(s) {
+        if is_ansi {
+            f.write_str(part)?;
+            continue;
+        }
+
+        for c in part.chars() {
+            let width = measure_text_width(c.encode_utf8(&mut utf8));
+            if width == 0 {
+                // Combining marks and the like go with the character they follow
+                if kept {
+                    f.write_char(c)?;
+                }
+                continue;
+            }
+
+            let (lo, hi) = (col, col + width);
+            col = hi;
+            kept = start <= lo && hi <= end;
+            if kept {
+                f.write_char(c)?;
+            } else {
+                for _ in lo.max(start)..hi.min(end) {
+                    f.write_char(' ')?;
+                }
+            }
+        }
+    }
+    Ok(())
 }
 
 #[derive(PartialEq, Eq, Debug, Copy, Clone)]
